@@ -71,6 +71,15 @@ def ev_term(t, val, calls=None):
             return b[lo:hi]
         except Exception:
             raise Unknown(tstr(t))
+    if h == "call" and t[1] == "m:get" and len(t[2]) in (2, 3) and t[2][0][0] == "dict":
+        # table.get(key, default) on a constant lookup table
+        k = ev_term(t[2][1], val, calls)
+        for kt, vt in t[2][0][1]:
+            if kt[0] == "c" and kt[1] == k and type(kt[1]) is type(k):
+                return ev_term(vt, val, calls)
+        return ev_term(t[2][2], val, calls) if len(t[2]) == 3 else None
+    if h == "tuple":
+        return tuple(ev_term(x, val, calls) for x in t[1])
     if h == "call" and calls is not None:
         r = calls(t, val)
         if r is not NotImplemented:
@@ -833,6 +842,7 @@ def sib7b(ctx, pid):
                 writer_ok = True
     g = ctx.P.func(B + "decode_from_bin")
     gsrc = util.alpha_src(g)
+    gsrc = __import__("re").sub(r"(\w+)\[::-1\]", r"reversed(\1)", gsrc)  # chunk[::-1] enumerates like reversed(chunk)
     reader_ok = "partition_all(8,%s)" % g.params[0] in gsrc and "sum((2**v1*v2for(v1,v2)inenumerate(reversed(v0))))" in gsrc.replace("forv1,v2in", "for(v1,v2)in")
     c = "bit-order:encode_to_bin/decode_from_bin"
     if msb_first and writer_ok and reader_ok:
